@@ -370,10 +370,28 @@ pub fn run_history_opt(rng: &mut Rng, init: Init, nunits: usize, oneshot: bool, 
     struct Done { env: UnitEnv, path: String, start: usize, end: usize, snap_before: Snapshot, snap_after: Snapshot, end_kind: UnitEnd, jit: Vec<i128>, rsteps: Vec<(Step, (i128, i128))>, apps_after: Vec<App>, should: bool }
     let mut done: Vec<Done> = vec![];
     let mut snap_before = hub.lock().unwrap().snapshot();
+    // implementation-only perturbation (the model has no notion of it: its trace must be unchanged): every control
+    // handle is dropped at the start of the last unit (if that unit's script has no control request) or at some point
+    // of its reboot wait; scheduled operation must go on exactly as if the handles were still there
+    // second perturbation: somebody else (the embedder) holds the shared app-set lock while the machine is polled for the
+    // first time, and lets go afterwards; the machine has to wait for the lock, not work around it
+    if rng.chance(1, 4) {
+        let guard = app_set.try_lock();
+        if guard.is_some() { let n = 1 + rng.below(2); for _ in 0..n { while runner.poll_stream() {} } }
+        drop(guard);
+        if let Some(e) = envs.get_mut(0) { e.1.push_str("contended-start/"); }
+    }
+    let drop_mode = if oneshot { 0 } else { match rng.below(8) { 0 => 1, 1 | 2 => 2, _ => 0 } };
+    let mut dropped = false;
     for k in 0..nunits {
         if runner.ended { break; }
-        let (env, path) = envs[k].clone();
+        let (env, mut path) = envs[k].clone();
         let mut rplan = rplans[k].clone();
+        if k + 1 == nunits && drop_mode == 1 && env.during.is_empty() && !env.wake.iter().any(|s| matches!(s, Step::Ctl(..))) {
+            rplan.retain(|(s, _)| !matches!(s, RStep::Ctl(..)));
+            runner.handle = None; runner.ctls.retain(|c| !c.done);
+            dropped = true; path.push_str("dropctl-outer/");
+        }
         let start = snap_before.trace_len;
         let mut rsteps_done: Vec<(Step, (i128, i128))> = vec![];
         let end_kind = loop {
@@ -381,6 +399,12 @@ pub fn run_history_opt(rng: &mut Rng, init: Init, nunits: usize, oneshot: bool, 
             if r != UnitEnd::Stalled { break r; }
             let in_reboot = hub.lock().unwrap().reboot_phase;
             if !in_reboot { break r; }
+            if k + 1 == nunits && drop_mode == 2 && !dropped && rng.chance(1, 2) {
+                rplan.retain(|(s, _)| !matches!(s, RStep::Ctl(..)));
+                runner.handle = None; runner.ctls.retain(|c| !c.done);
+                dropped = true; path.push_str("dropctl-reboot/");
+                continue;                                   // let the machine react (it must not)
+            }
             // resolve the next symbolic step against the timers armed so far in this unit
             let Some((rs, d)) = rplan.pop_front() else { break r; };
             let (t30, pings) = {
